@@ -7,7 +7,8 @@ fn row(h: usize) -> usize {
 	h * MAX_HOPS - (h * (h.wrapping_sub(1))) / 2
 }
 
-// (P C14) shift_right moves hold time i to i+1 and every HMAC to its BOLT position one hop further;
+// (P C14) shift_right moves hold time i to i+1 and every HMAC to its BOLT position one hop further
+// (block h, column c+1  ->  block h+1, column c);
 // checked at one symbolic position (h, c, b) / i, i.e. for every position
 pub fn contract_shift_right(hold: [u8; MAX_HOPS * HOLD_TIME_LEN], hmacs: [u8; HMAC_LEN * HMAC_COUNT], h: u8, c: u8, b: u8, i: u8) -> Outcome {
 	let (h, c, b, i) = (h as usize, c as usize, b as usize, i as usize);
@@ -16,7 +17,8 @@ pub fn contract_shift_right(hold: [u8; MAX_HOPS * HOLD_TIME_LEN], hmacs: [u8; HM
 	}
 	let mut a = AttributionData { hold_times: hold, hmacs };
 	a.shift_right();
-	let src = (row(h) + c) * HMAC_LEN + b;
+	// the block added by hop h+1 holds, at column c, what hop h had at column c+1 (one more downstream hop)
+	let src = (row(h) + c + 1) * HMAC_LEN + b;
 	let dst = (row(h + 1) + c) * HMAC_LEN + b;
 	if a.hmacs[dst] == hmacs[src] && a.hold_times[i + HOLD_TIME_LEN] == hold[i] {
 		Outcome::Holds
@@ -34,7 +36,8 @@ pub fn contract_shift_left_inverse(hold: [u8; MAX_HOPS * HOLD_TIME_LEN], hmacs: 
 	let mut a = AttributionData { hold_times: hold, hmacs };
 	a.shift_right();
 	a.shift_left();
-	let pos = (row(h) + c) * HMAC_LEN + b;
+	// survivors: every column but the first of each block (column 0 is the slot the next hop fills in)
+	let pos = (row(h) + c + 1) * HMAC_LEN + b;
 	if a.hmacs[pos] == hmacs[pos] && a.hold_times[i] == hold[i] {
 		Outcome::Holds
 	} else {
